@@ -8,6 +8,7 @@ import (
 	"sync"
 	"sync/atomic"
 	"testing"
+	"time"
 
 	"go.brendoncarroll.net/p2p/f/x509"
 	"go.brendoncarroll.net/p2p/p/p2pke"
@@ -31,6 +32,22 @@ type world struct {
 	faults    int // drops/dups/reorders/reflections observed (for non-triviality)
 	delivered map[string]int
 	salted    bool // the pair authenticates with a randomised signature scheme from a custom registry
+	// elapsed is the simulated time since both sessions were created (random schedules let it pass in jumps; it
+	// stays below every configuration's RejectAfterTime, so neither session has expired)
+	elapsed time.Duration
+}
+
+func (w *world) now() time.Time { return tBase.Add(w.elapsed) }
+
+// ownedHandshake is Handshake(nil) as a transmit path that owns and recycles its packet buffers uses it: the
+// bytes returned belong to the caller, who scribbles over them once they are "sent".
+func ownedHandshake(s interface{ Handshake([]byte) []byte }) []byte {
+	m := s.Handshake(nil)
+	cp := append([]byte{}, m...)
+	for i := range m {
+		m[i] = 0xCC
+	}
+	return cp
 }
 
 // newSaltedWorld is newWorld with keys of the salted scheme.
@@ -76,6 +93,8 @@ func (a action) str(w *world) string {
 		return "handshake(" + side + ")"
 	case "send":
 		return "send(" + side + ")"
+	case "tick":
+		return fmt.Sprintf("time+%ds", a.msg)
 	}
 	return fmt.Sprintf("deliver(%s<-%s:%s)", side, "AB"[w.poolFrom[a.msg]:w.poolFrom[a.msg]+1], msgName(w.pool[a.msg]))
 }
@@ -132,11 +151,13 @@ func (w *world) apply(a action) (problem string) {
 	w.trace = append(w.trace, a.str(w))
 	switch a.kind {
 	case "hs":
-		w.addPool(w.s[a.side].Handshake(nil), a.side)
+		w.addPool(ownedHandshake(w.s[a.side]), a.side)
+	case "tick":
+		w.elapsed += time.Duration(a.msg) * time.Second
 	case "send":
 		w.sends[a.side]++
 		pt := []byte(fmt.Sprintf("pt-%c-%d-0123456789abcdef", "AB"[a.side], w.sends[a.side]))
-		ct, err := w.s[a.side].Send(nil, pt, tBase)
+		ct, err := w.s[a.side].Send(nil, pt, w.now())
 		if err != nil {
 			return fmt.Sprintf("%s failed although the session reports ready: %v", a.str(w), err)
 		}
@@ -158,7 +179,7 @@ func (w *world) apply(a action) (problem string) {
 		if a.msg != len(w.pool)-1 {
 			w.faults++ // not the newest message: delayed / reordered
 		}
-		isApp, out, err := deliverRecycled(w.s[a.side], m, tBase)
+		isApp, out, err := deliverRecycled(w.s[a.side], m, w.now())
 		if err != nil {
 			return "" // errors are allowed, they just must not be permanent (checked by the suffix)
 		}
@@ -187,10 +208,10 @@ func (w *world) fairSuffix() (problem string) {
 	}()
 	for round := 0; round < 3; round++ {
 		for side := 0; side < 2; side++ {
-			m := w.s[side].Handshake(nil)
+			m := ownedHandshake(w.s[side])
 			to := 1 - side
 			for hops := 0; len(m) > 0 && hops < 8; hops++ {
-				_, out, err := deliverRecycled(w.s[to], m, tBase)
+				_, out, err := deliverRecycled(w.s[to], m, w.now())
 				if err != nil {
 					// m is the current handshake message of the genuine peer (or the reply it provoked):
 					// retries must always be accepted or ignored, never refused
@@ -218,14 +239,14 @@ func (w *world) fairSuffix() (problem string) {
 	}
 	for side := 0; side < 2; side++ {
 		pt := []byte(fmt.Sprintf("final-%c-0123456789abcdef", "AB"[side]))
-		ct, err := w.s[side].Send(nil, pt, tBase)
+		ct, err := w.s[side].Send(nil, pt, w.now())
 		if err != nil {
 			return fmt.Sprintf("after completion Send on side %c fails: %v", "AB"[side], err)
 		}
 		if c := counterOf(ct); c < 16 {
 			return fmt.Sprintf("after completion side %c sends data under handshake-range counter %d", "AB"[side], c)
 		}
-		isApp, out, err := deliverRecycled(w.s[1-side], ct, tBase)
+		isApp, out, err := deliverRecycled(w.s[1-side], ct, w.now())
 		if err != nil || !isApp || !eq(out, pt) {
 			return fmt.Sprintf("after completion data from %c is not delivered: isApp=%v out=%q err=%v (counter %d)", "AB"[side], isApp, out, err, counterOf(ct))
 		}
@@ -349,7 +370,7 @@ func TestC06Exhaustive(t *testing.T) {
 
 func TestC06Random(t *testing.T) {
 	const sub = "C06.schedules_random"
-	ev.Rule(sub, "rapid: random schedules of up to 60 enabled actions (same action set and oracles as schedules_exhaustive; in one case of four the pair authenticates with a randomised signature scheme - salted Ed25519 - from a custom registry, so that a rebuilt handshake message differs from the remembered one), each followed by the fair suffix; non-trivial = schedule containing a duplicate, reflected or out-of-order delivery before completion; distinct by action sequence")
+	ev.Rule(sub, "rapid: random schedules of up to 60 enabled actions (same action set and oracles as schedules_exhaustive; in one case of four the pair authenticates with a randomised signature scheme - salted Ed25519 - from a custom registry, so that a rebuilt handshake message differs from the remembered one), simulated time passing in jumps of 1-150 s up to 170 s in total (below RejectAfterTime), handshake bytes returned by Handshake(nil) scribbled over by the caller once copied, each followed by the fair suffix; non-trivial = schedule containing a duplicate, reflected or out-of-order delivery before completion; distinct by action sequence")
 	rapid.Check(t, func(t *rapid.T) {
 		w := newWorld()
 		if rapid.IntRange(0, 3).Draw(t, "signatureScheme") == 0 {
@@ -361,6 +382,17 @@ func TestC06Random(t *testing.T) {
 			as := w.enabled()
 			if len(as) == 0 {
 				break
+			}
+			// time passes in jumps (an outage, a delayed packet); the total stays below 170 s, inside the shortest
+			// RejectAfterTime anybody configures (the default is 180 s), so every retransmission is still current
+			if rapid.IntRange(0, 7).Draw(t, "timePasses") == 0 {
+				d := rapid.SampledFrom([]int{1, 30, 90, 119, 121, 150}).Draw(t, "seconds")
+				if w.elapsed+time.Duration(d)*time.Second <= 170*time.Second {
+					if p := w.apply(action{kind: "tick", msg: d}); p != "" {
+						t.Fatalf("%s\nschedule: %s", p, strings.Join(w.trace, " ; "))
+					}
+					ev.Class(sub, "time-jump")
+				}
 			}
 			// bias towards the newest pool messages so that the handshake advances
 			var idx int
